@@ -104,6 +104,14 @@ def _run_units(units, repo, verif, work, tier, jobs=None):
             with open(modfile, 'a') as fh:
                 fh.write('\n#[cfg(kani)]\n#[path = "%s"]\nmod %s;\n' % (hfile, modname))
         r.rewrites.append({'rule': 'overlay', 'file': spec['module_file'], 'line': 0, 'what': 'appended #[cfg(kani)] mod %s (harness file kani/%s)' % (modname, spec['file'])})
+        for attr in spec.get('crate_attrs', []):
+            # a crate-level, kani-only feature gate a harness needs (e.g. to name the allocator parameter of a std method it stubs)
+            libf = os.path.join(scratch, 'src', 'lib.rs')
+            txt = open(libf).read()
+            line = '#![cfg_attr(kani, %s)]\n' % attr
+            if line not in txt:
+                open(libf, 'w').write(line + txt)
+            r.rewrites.append({'rule': 'overlay', 'file': 'src/lib.rs', 'line': 1, 'what': 'prepended %s (only under cfg(kani))' % line.strip()})
         for f in spec.get('functions', []):
             r.functions.append((f, spec['module_file'], spec.get('fn_status', 'proved (complete harness)')))
         for a in spec.get('assumes', []):
